@@ -4,6 +4,8 @@ import Driver.Recv
 import Driver.Send
 import Driver.C09
 import Driver.C10
+import Driver.C11
+import Driver.C12
 import Driver.C17
 import Driver.C15
 open Lean Driver
@@ -17,6 +19,8 @@ def dispatch (j : Json) : R Json := do
   | "send" => Driver.Send.handle op j
   | "c09" => Driver.C09.handle op j
   | "c10" => Driver.C10.handle op j
+  | "c11" => Driver.C11.handle op j
+  | "c12" => Driver.C12.handle op j
   | "c17" => Driver.C17.handle op j
   | "c15" => Driver.C15.handle op j
   | "ping" => return obj [("pong", Json.bool true)]
